@@ -397,6 +397,18 @@ def init_size(nz, n, depth=0):
         return padd(a, b_ if n[1] == "Add" else pneg(b_))
     if n[0] == "call" and n[1] == ("global", "int") and len(n[2]) == 1:
         return init_size(nz, n[2][0], depth + 1)
+    if n[0] == "call" and n[1] == ("global", "sum") and len(n[2]) in (1, 2) and not n[3] and isinstance(n[2][0], tuple) and n[2][0][0] in ("list", "tuple"):
+        # sum over a displayed (statically unrolled) sequence of block sizes, optionally from a start value
+        from ..norm import padd as _padd
+        tot = init_size(nz, n[2][1], depth + 1) if len(n[2]) == 2 else {}
+        for x in n[2][0][1]:
+            if isinstance(x, tuple) and x and x[0] == "star":
+                return None
+            sx = init_size(nz, x, depth + 1)
+            if sx is None or tot is None:
+                return None
+            tot = _padd(tot, sx)
+        return tot
     return None
 
 
